@@ -955,6 +955,40 @@ def rule_T6(ctx, rid='T6'):
     exp_true = {x.id for x in cfg.nodes if x.kind == 'stmt' and isinstance(x.ast, ast.Assign)
                 and dotted(x.ast.targets[0]) == 'self.explored' and
                 isinstance(x.ast.value, ast.Constant) and x.ast.value.value is True}
+    # removal inside a loop over an index array must go from the highest index down (a pop
+    # shifts every later shell), and must select exactly the empty shells
+    for lp in walk_no_nested(run.node):
+        if not (isinstance(lp, ast.For) and isinstance(lp.target, ast.Name)):
+            continue
+        inner = [e for nid, e in dels if e.op == 'DELETE' and any(
+            e.ast is s_ or any(e.ast is x for x in ast.walk(s_)) for s_ in lp.body)]
+        if not inner:
+            continue
+        it = lp.iter
+        desc = False
+        src = it
+        if isinstance(it, ast.Subscript) and isinstance(it.slice, ast.Slice) and \
+                it.slice.lower is None and it.slice.upper is None and \
+                const_value(it.slice.step) == -1:
+            desc, src = True, it.value
+        elif isinstance(it, ast.Call) and dotted(it.func) == 'reversed' and it.args:
+            desc, src = True, it.args[0]
+        elif isinstance(it, ast.Call) and dotted(it.func) == 'sorted' and any(
+                k.arg == 'reverse' and const_value(k.value) is True for k in it.keywords):
+            desc, src = True, it.args[0]
+        asc_src = isinstance(src, ast.Call) and dotted(src.func) in ('np.flatnonzero',
+                                                                    'np.nonzero', 'np.where')
+        ctx.ob(rid, 'Sampler.run:removal-descending', desc and asc_src, run.where(lp),
+               'empty shells are removed from the highest index down' if desc and asc_src else
+               'shells are removed in an order that lets earlier removals shift the indices of '
+               'later ones: the wrong shells would be dropped')
+        sel = src.args[0] if asc_src and src.args else None
+        okz = isinstance(sel, ast.Compare) and dotted(sel.left) == 'self.shell_n' and \
+            isinstance(sel.ops[0], ast.Eq) and const_value(sel.comparators[0]) == 0
+        ctx.ob(rid, 'Sampler.run:removal-selects-empty-shells', okz, run.where(lp),
+               'exactly the shells with shell_n == 0 are removed' if okz else
+               'the removed shells are selected by `%s`, not by shell_n == 0'
+               % (unparse(sel) if sel is not None else unparse(it)))
     seen = set()
     for nid, e in dels:
         key = (e.member, e.op)
